@@ -7,6 +7,12 @@ COMMON_ASSUME = [
     "the model is tied to the code by the correspondence check on the sampled inputs of this run only",
 ]
 
+def _ped_labels(run_driver):
+    """two-phase: the Pedersen labels come from the Lean model and are handed to the harness"""
+    rep = run_driver(["pedlabels"])
+    return [rep[0].split("labels=", 1)[1].strip()] if rep and "labels=" in rep[0] else ["-"]
+
+
 PROPS = {
     "C01": {
         "level": "proof",
@@ -106,6 +112,24 @@ PROPS = {
         "rule": "bits x degree x {valid, invalid proof} x seed {same, none, +1, zero, random} x 3 modes; distinct = that tuple",
         "explanation": "Lean theorems: recovered value under another nonce family = true mask + explicit linear form in nonce differences; verdict of the control-flow model independent of seeds and of the verifying mode; recover-only returns the same results as recover-and-verify when the latter succeeds. Oracle: verdict matrix on the real code, wrong seeds give Ok with every component different from the true mask.",
         "assumptions": COMMON_ASSUME + ["nonce differences under distinct seeds are non-zero: Blake2b-MAC as a PRF (outside the proof)"],
+    },
+    "C11": {
+        "level": "proof",
+        "theorems": T("C11_chain_inj", "C11_chain_ne_pedersen", "C11_pedersen_inj", "C11_table_positions", "C11_table_length"),
+        "leancheck": ["Bpp.GensThm"],
+        "scenarios": [{"name": "C11", "pre": _ped_labels}],
+        "rule": "all (bits, capacity) in {1,2,4,8,16,32,64} x {1,2,4,8,16,32}, all extension degrees, every (kind, party, index) position (stride 7 in quick for the SHAKE tie); distinct = (bits, capacity) pairs + degrees",
+        "explanation": "Lean theorems: label/offset scheme injective and domain-separated from the Pedersen labels, table position 2i/2i+1 = G_i/H_i, table length. Tie: SHAKE256 (independent implementation) of the model-emitted label at the model-emitted offset = the 64 bytes the library hashed to that generator (observed over the free module); table order = model order; Pedersen labels emitted by the model reproduce the real blinding generators. Oracle (exhaustive): accessors = Elligator(block) for every configuration, 4103 points pairwise distinct and non-identity, compressed forms, basepoint, determinism across constructions and threads.",
+        "assumptions": ["SHAKE256, SHA3-512 and Elligator are not modelled; independence of the derived points (no known discrete-log relation) is their contract", "actual distinctness is checked on the finite table by the harness, not by a Lean theorem"],
+    },
+    "C12": {
+        "level": "proof",
+        "theorems": T("C12_aggIter_prefix", "C12_padding_neutral", "C12_padding_fills", "C12_verifier_prefix"),
+        "leancheck": ["Bpp.GensThm"],
+        "scenarios": [{"name": "C12"}],
+        "rule": "bits x aggregation x every pair (c_p, c_v) in {m, 2m, 4m, 32}^2, plus mixed-capacity batches; distinct = (bits, aggregation, c_p, c_v)",
+        "explanation": "Lean theorems: generator labels have no capacity argument and the iterator for m parties is a prefix of that for any larger capacity; zero padding up to the table size is neutral and always fills the table; the coded verifier depends on G, H only through their first n*m entries. Tie: residual under c_v != c_p is a non-zero multiple of the reference residual; oracle: all capacity pairs accepted on both groups, mixed batches accepted.",
+        "assumptions": COMMON_ASSUME,
     },
 }
 NOT_CLAIMED = {}
